@@ -39,7 +39,14 @@ pub enum NTy {
     U16,
     U32,
     U64,
+    U128,
     Usize,
+    I8,
+    I16,
+    I32,
+    I64,
+    I128,
+    Isize,
 }
 
 impl NTy {
@@ -49,7 +56,14 @@ impl NTy {
             NTy::U16 => "u16",
             NTy::U32 => "u32",
             NTy::U64 => "u64",
+            NTy::U128 => "u128",
             NTy::Usize => "usize",
+            NTy::I8 => "i8",
+            NTy::I16 => "i16",
+            NTy::I32 => "i32",
+            NTy::I64 => "i64",
+            NTy::I128 => "i128",
+            NTy::Isize => "isize",
         }
     }
     fn from_name(s: &str) -> NTy {
@@ -58,19 +72,59 @@ impl NTy {
             "u16" => NTy::U16,
             "u32" => NTy::U32,
             "u64" => NTy::U64,
+            "u128" => NTy::U128,
+            "i8" => NTy::I8,
+            "i16" => NTy::I16,
+            "i32" => NTy::I32,
+            "i64" => NTy::I64,
+            "i128" => NTy::I128,
+            "isize" => NTy::Isize,
             _ => NTy::Usize,
         }
     }
+    /// largest value of the type (as far as naturals are concerned)
     fn max(self) -> u128 {
         match self {
             NTy::U8 => u128::from(u8::MAX),
             NTy::U16 => u128::from(u16::MAX),
             NTy::U32 => u128::from(u32::MAX),
             NTy::U64 => u128::from(u64::MAX),
+            NTy::U128 => u128::MAX,
             NTy::Usize => usize::MAX as u128,
+            NTy::I8 => i8::MAX as u128,
+            NTy::I16 => i16::MAX as u128,
+            NTy::I32 => i32::MAX as u128,
+            NTy::I64 => i64::MAX as u128,
+            NTy::I128 => i128::MAX as u128,
+            NTy::Isize => isize::MAX as u128,
         }
     }
-    const ALL: [NTy; 5] = [NTy::U8, NTy::U16, NTy::U32, NTy::U64, NTy::Usize];
+    /// smallest value of the type
+    fn min(self) -> i128 {
+        match self {
+            NTy::I8 => i128::from(i8::MIN),
+            NTy::I16 => i128::from(i16::MIN),
+            NTy::I32 => i128::from(i32::MIN),
+            NTy::I64 => i128::from(i64::MIN),
+            NTy::I128 => i128::MIN,
+            NTy::Isize => isize::MIN as i128,
+            _ => 0,
+        }
+    }
+    const ALL: [NTy; 12] = [
+        NTy::U8,
+        NTy::U16,
+        NTy::U32,
+        NTy::U64,
+        NTy::U128,
+        NTy::Usize,
+        NTy::I8,
+        NTy::I16,
+        NTy::I32,
+        NTy::I64,
+        NTy::I128,
+        NTy::Isize,
+    ];
 }
 
 #[derive(Clone, Debug, PartialEq)]
@@ -81,7 +135,8 @@ pub enum ROp {
     U8,
     Cmr,
     Fail,
-    Nat(NTy, Option<u64>),
+    /// result type and bound (negative bounds are possible for signed result types)
+    Nat(NTy, Option<i128>),
     Len,
     Count,
 }
@@ -170,7 +225,11 @@ fn rop_from(j: &Json) -> Option<ROp> {
         "fail" => ROp::Fail,
         "nat" => ROp::Nat(
             NTy::from_name(j[1].as_str().unwrap_or("usize")),
-            if j[2].is_null() { None } else { Some(pu64(&j[2])) },
+            match &j[2] {
+                Json::Null => None,
+                Json::String(s) => s.parse::<i128>().ok(),
+                o => o.as_i64().map(i128::from),
+            },
         ),
         "len" => ROp::Len,
         "count" => ROp::Count,
@@ -651,14 +710,11 @@ impl NE {
     }
 }
 
-fn nat_call<I: Iterator<Item = u8>>(
-    it: &mut BitIter<I>,
-    ty: NTy,
-    bound: Option<u64>,
-) -> Result<u128, NE> {
+fn nat_call<I: Iterator<Item = u8>>(it: &mut BitIter<I>, ty: NTy, bound: Option<i128>) -> Result<u128, NE> {
     macro_rules! go {
         ($t:ty) => {{
-            let b: Option<$t> = bound.map(|b| <$t>::try_from(b).unwrap_or(<$t>::MAX));
+            // a bound outside the type's range is clamped into it (the caller could not have passed it otherwise)
+            let b: Option<$t> = bound.map(|b| <$t>::try_from(b).unwrap_or(if b < 0 { <$t>::MIN } else { <$t>::MAX }));
             it.read_natural::<$t>(b).map(|x| x as u128).map_err(|e| NE::classify(&format!("{:?}", e)))
         }};
     }
@@ -667,7 +723,14 @@ fn nat_call<I: Iterator<Item = u8>>(
         NTy::U16 => go!(u16),
         NTy::U32 => go!(u32),
         NTy::U64 => go!(u64),
+        NTy::U128 => go!(u128),
         NTy::Usize => go!(usize),
+        NTy::I8 => go!(i8),
+        NTy::I16 => go!(i16),
+        NTy::I32 => go!(i32),
+        NTy::I64 => go!(i64),
+        NTy::I128 => go!(i128),
+        NTy::Isize => go!(isize),
     }
 }
 
@@ -767,10 +830,12 @@ fn read_phase<I: Iterator<Item = u8> + ExactSizeIterator>(
                 kinds |= 16;
                 let model = natural::decode(&bits[p..]);
                 let got = nat_call(&mut it, *ty, *bound);
-                let eff_bound: Option<u128> = bound.map(|b| u128::from(b).min(ty.max()));
+                // effective bound in the result type: clamped into the type's range; a negative
+                // bound admits no natural at all
+                let eff_bound: Option<i128> = bound.map(|b| b.clamp(ty.min(), i128::try_from(ty.max()).unwrap_or(i128::MAX)));
                 match model {
                     Decoded::Num(n, c) => {
-                        let in_bound = eff_bound.map(|b| n <= b).unwrap_or(true);
+                        let in_bound = eff_bound.map(|b| b >= 0 && n <= b as u128).unwrap_or(true);
                         let fits = n <= ty.max();
                         if n <= (1u128 << 31) - 1 && fits && in_bound {
                             match got {
@@ -807,9 +872,9 @@ fn read_phase<I: Iterator<Item = u8> + ExactSizeIterator>(
                             match got {
                                 Err(NE::Overflow) => fix_pos(&it, &mut p, c, &at)?,
                                 Err(NE::BadIndex { got: g, max: m }) => {
-                                    if !in_bound && n <= ty.max().min(u128::from(u32::MAX)) {
-                                        let b = eff_bound.unwrap();
-                                        if g as u128 != n || m as u128 != b {
+                                    if !in_bound && n <= ty.max().min(u128::from(u32::MAX)) && eff_bound.unwrap() >= 0 {
+                                        let b = eff_bound.unwrap() as u128;
+                                        if g as u128 != n || (m as u128 != b && b <= usize::MAX as u128) {
                                             return Err(v(
                                                 "natural-decode",
                                                 "bad-index-fields",
@@ -978,10 +1043,11 @@ fn mirrored_rops(r: &mut Rng, wops: &[WOp]) -> Vec<ROp> {
         match op {
             WOp::Nat(n) => {
                 let ty = *r.pick(&NTy::ALL);
-                let bound = match r.below(4) {
-                    0 => Some(*n),
-                    1 => Some(n.saturating_sub(1).max(1)),
-                    2 => Some(r.range(1, 1 << 20)),
+                let bound = match r.below(5) {
+                    0 => Some(i128::from(*n)),
+                    1 => Some(i128::from(n.saturating_sub(1))),
+                    2 => Some(i128::from(r.range(0, 1 << 20))),
+                    3 => Some(-i128::from(r.range(0, 300))),
                     _ => None,
                 };
                 v.push(ROp::Nat(ty, bound));
@@ -1031,9 +1097,10 @@ fn random_rops(r: &mut Rng, n: usize) -> Vec<ROp> {
             5 => ROp::Fail,
             6 => {
                 let ty = *r.pick(&NTy::ALL);
-                let bound = match r.below(3) {
-                    0 => Some(r.range(1, 300)),
-                    1 => Some(r.range(1, u64::from(u32::MAX))),
+                let bound = match r.below(4) {
+                    0 => Some(i128::from(r.range(0, 300))),
+                    1 => Some(i128::from(r.range(1, u64::from(u32::MAX)))),
+                    2 => Some(-i128::from(r.range(0, 1 << 40))),
                     _ => None,
                 };
                 ROp::Nat(ty, bound)
@@ -1126,12 +1193,13 @@ impl C13 {
                 }
             }
             // every result type, a bound on either side
-            let ty = NTy::ALL[(n % 5) as usize];
-            let bound = match (n / 5) % 4 {
+            let ty = NTy::ALL[(n % 12) as usize];
+            let bound = match (n / 12) % 5 {
                 0 => None,
-                1 => Some(n),
-                2 => Some(n.saturating_sub(1).max(1)),
-                _ => Some(n + 1),
+                1 => Some(i128::from(n)),
+                2 => Some(i128::from(n) - 1),
+                3 => Some(i128::from(n) + 1),
+                _ => Some(-(i128::from(n) % 7)),
             };
             rops.push(ROp::Nat(ty, bound));
             rops.push(ROp::Count);
